@@ -12,6 +12,8 @@ Model of Laythe's class machinery (C03).
 * §6 the VM's call paths with the inline caches off (cache transparency is C13):
   `op_invoke`, `op_get_prop_by_name`, `op_set_prop_by_name`, `op_get_prop`, `op_set_prop`, `op_call`,
   `resolve_call`, `call_class`, `call_method`, `bind_method`, `op_get_super`, `op_super_invoke`.
+* §7 the one inline cache that decides *which class* a call dispatches on although the receiver does not:
+  the slot of a fused `super.m()` (`op_super_invoke` with `get_invoke_cache / set_invoke_cache`).
 
 Core Lean only (links into `drv_classes`).
 -/
@@ -544,5 +546,80 @@ def opSuperInvoke (vm : VM) (name : String) (argc : Nat) : Sig :=
   | _ => .internal "expected class"
 
 end VM
+
+/-! ## §7 the inline cache slot of a fused super call (laythe_vm/src/cache.rs, `op_super_invoke`)
+
+Every `SuperInvoke` instruction owns one slot of the module's `InlineCache::invoke` vector.  The slot
+belongs to the *instruction*, i.e. to the text of the class declaration — not to the class object: when
+the declaration is evaluated again (a class factory `fn mk(B) { class D : B { m() { super.m() } } return D; }`)
+the same slot is reached with another superclass on the stack. -/
+
+/-- `struct InvokeCache { class, method }` -/
+structure InvokeEntry where
+  cls : Nat
+  method : Val
+  deriving Repr, DecidableEq
+
+/-- one element of `InlineCache::invoke` -/
+abbrev InvokeSlot := Option InvokeEntry
+
+/-- `InlineCache::get_invoke_cache(inline_slot, class)`: a hit only for the class the entry was filled with -/
+def getInvokeCache (slot : InvokeSlot) (cls : Nat) : Option Val :=
+  match slot with
+  | some e => if e.cls = cls then some e.method else none
+  | none => none
+
+/-- what a getter that does not compare the class would answer (not in the code: the mutation the
+witness `C03_witness_unkeyed_super_cache` is about) -/
+def getInvokeCacheUnkeyed (slot : InvokeSlot) (_cls : Nat) : Option Val := slot.map (·.method)
+
+namespace VM
+
+/-- `op_super_invoke` in full, parameterised by the getter: stack `superclass :: args.. :: self :: rest`;
+a hit calls the cached method, a miss looks the method up in the popped class and fills the slot with
+(that class, method).  Returns the signal and the slot afterwards. -/
+def opSuperInvokeWith (getter : InvokeSlot → Nat → Option Val) (vm : VM) (slot : InvokeSlot) (name : String) (argc : Nat) :
+    Sig × InvokeSlot :=
+  match vm.stack with
+  | .cls sup :: rest =>
+    let vm1 := { vm with stack := rest }
+    match getter slot sup with
+    | some m => (vm1.resolveCall m argc, slot)
+    | none =>
+      match (vm.store.get? sup).bind (·.getMethod name) with
+      | some m => (vm1.resolveCall (.closure m) argc, some { cls := sup, method := .closure m })
+      | none => (.error .property (vm.undefinedProperty name sup), slot)
+  | _ => (.internal "expected class", slot)
+
+/-- `op_super_invoke` as it is: `get_invoke_cache(inline_slot, super_class)` -/
+def opSuperInvokeC (vm : VM) (slot : InvokeSlot) (name : String) (argc : Nat) : Sig × InvokeSlot :=
+  opSuperInvokeWith getInvokeCache vm slot name argc
+
+/-- one super call site over a whole run: the executions of the instruction in order (each with the
+machine state it meets and its argument count), the slot threaded through -/
+def superSiteRun (getter : InvokeSlot → Nat → Option Val) (name : String) : InvokeSlot → List (VM × Nat) → List Sig
+  | _, [] => []
+  | slot, (vm, argc) :: r =>
+    let p := opSuperInvokeWith getter vm slot name argc
+    p.1 :: superSiteRun getter name p.2 r
+
+end VM
+
+/-- the facts of `op_super_invoke` / `op_get_super` / `get_invoke_cache` the model above is written from, in
+the shape tools/translate_c03.py extracts them from ops.rs and cache.rs (`Gen/SuperSites.lean`; tied by
+`C03.super_sites_eq_gen`): per op, where the class comes from, the cache getter with its arguments, the
+lookup on a miss, the cache setter with its arguments, what is done with the method (source order). -/
+def superSiteFacts : List (String × String × List String) := [
+  ("op_super_invoke", "class", ["super_class", "self.fiber.pop().to_obj().to_class()"]),
+  ("op_super_invoke", "get", ["get_invoke_cache", "inline_slot", "super_class"]),
+  ("op_super_invoke", "call", ["self.resolve_call(method, arg_count)"]),
+  ("op_super_invoke", "lookup", ["super_class.get_method(&method_name)"]),
+  ("op_super_invoke", "set", ["set_invoke_cache", "inline_slot", "super_class", "method"]),
+  ("op_super_invoke", "call", ["self.resolve_call(method, arg_count)"]),
+  ("op_get_super", "class", ["super_class", "self.fiber.pop().to_obj().to_class()"]),
+  ("op_get_super", "bind", ["self.bind_method(super_class, name)"])]
+
+/-- (getter, it has a class parameter, its only `Some` stands under `cache.class == class`) -/
+def invokeGetterFacts : List (String × Bool × Bool) := [("get_invoke_cache", true, true)]
 
 end LaytheVerif.Classes
